@@ -3,6 +3,7 @@ import ZapVerif.Model.GoMini
 import ZapVerif.Model.TransJsonSepX
 import ZapVerif.Model.TransSamplerX
 import ZapVerif.Model.TransMultiWSX
+import ZapVerif.Model.TransZioX
 import ZapVerif.Gen.TransProbe
 /-! `zvdrv CTR`: the interpreter side of the translator's differential test.  An op names a generated table and a
     function, gives arguments and receiver fields; the handler runs the GENERATED term in the GoMini interpreter
@@ -44,7 +45,8 @@ def tables : List (String × (Env → Ctx)) := [
   ("TransProbe", fun _ => { ext := fun _ _ => none, funs := ZapVerif.Gen.TransProbe.funs }),
   ("TransJsonSep", fun _ => ZapVerif.TransJsonSep.X),
   ("TransSampler", fun e => ZapVerif.TransSampler.X (enabledOf e)),
-  ("TransMultiWS", fun _ => ZapVerif.TransMultiWS.X)
+  ("TransMultiWS", fun _ => ZapVerif.TransMultiWS.X),
+  ("TransZio", fun e => ZapVerif.TransZio.X (match e.get "#en" with | some (.bool b) => b | _ => true))
 ]
 
 def panicName : Panic → String
